@@ -7,6 +7,7 @@ import (
 	"fmt"
 	"math/rand"
 	"os"
+	"os/exec"
 	"path/filepath"
 	"regexp"
 	"runtime"
@@ -356,6 +357,34 @@ func floodTrial(helper string, offset time.Duration, presses int) (frozen bool, 
 	return false, "", nil
 }
 
+// opLocksApalache has Apalache discharge the inductive invariant of OpshellLocksInd.tla (the lock
+// discipline for any number of key presses, chunks and pending goroutines) and refute the design as
+// found.  A stall is noted, not a verdict.
+func opLocksApalache(r *ev.Run) {
+	dir, err := os.MkdirTemp(os.Getenv("VERIF_SCRATCH"), "apalache-oplocks-")
+	if err != nil {
+		return
+	}
+	defer os.RemoveAll(dir)
+	t0 := time.Now()
+	out, _ := exec.Command(filepath.Join(ev.Root(), "spec", "OpshellLocksInd_apalache.sh"), dir).CombinedOutput()
+	var outcomes []string
+	for _, l := range strings.Split(string(out), "\n") {
+		if i := strings.Index(l, "The outcome is: "); i >= 0 {
+			outcomes = append(outcomes, strings.Fields(l[i+len("The outcome is: "):])[0])
+		}
+	}
+	switch {
+	case len(outcomes) == 3 && outcomes[0] == "NoError" && outcomes[1] == "NoError" && outcomes[2] == "Error":
+		r.Set("apalache_lock_discipline", fmt.Sprintf("OpshellLocksInd.tla: Init => IndInv and IndInv /\\ Next => IndInv' discharged for the repaired design with unbounded environment; NoLockCycle refuted within 3 steps for the inline design (%.0f s)", time.Since(t0).Seconds()))
+		r.Append("tlc_invariants_checked", "Apalache: OpshellLocksInd IndInv (TypeOK Holds NoLockCycle LockOrder) inductive")
+	case len(outcomes) >= 2 && (outcomes[0] == "Error" || outcomes[1] == "Error"):
+		r.Inconclusive("Apalache refutes the inductive invariant of OpshellLocksInd.tla (a specification problem, not an implementation verdict): %v", outcomes)
+	default:
+		r.Set("apalache_lock_discipline", "not discharged in this run (tool stalled or unavailable): "+strings.TrimSpace(string(out)))
+	}
+}
+
 func opLocksCampaign(r *ev.Run) {
 	scratch, err := os.MkdirTemp(os.Getenv("VERIF_SCRATCH"), "oplocks-")
 	if err != nil {
@@ -382,6 +411,7 @@ func opLocksCampaign(r *ev.Run) {
 	cfg, perWalk, limit, trials := "OpshellLocks_q", 30, 400, 24
 	if r.Tier == "thorough" {
 		cfg, perWalk, limit, trials = "OpshellLocks_t", 40, 4000, 120
+		opLocksApalache(r)
 	}
 	g := graph.New()
 	var mu sync.Mutex
